@@ -7,7 +7,7 @@ coarser taxonomy (diff_exp/truncate_precompute.py, cli/truncate_precomputed_taxo
           those computed from the cells under the coarser labels (additivity); two steps equal one.
 2. S->C : for every shape TLC emits every request with its decision; the harness writes a real statistics file
           (scrambled row table, several additive data sets of different types, gene names), issues histories of 1-3
-          requests against the real function, each accepted output being the
+          requests against the real function (one in ten first requests through the command-line runner), each accepted output being the
           input of the next, and Truncate_Trace decides every step: decision and reason, written tree, every number
           of every data set, row table, data-set names, input untouched / nothing written on refusal.
 """
@@ -160,6 +160,8 @@ def _case(args):
                       'namesok': True, 'untouched': True}
                 try:
                     if scn['cli'] and i == 0:
+                        from harness import argshim
+                        argshim.install()
                         from cell_type_mapper.cli.truncate_precomputed_taxonomy import TaxonomyTruncationRunner
                         TaxonomyTruncationRunner(args=[], input_data={
                             'input_path': str(cur), 'output_path': str(out), 'new_hierarchy': Hn}).run()
@@ -285,7 +287,7 @@ def run(ctx):
                     st[k] = [rng.randint(0, 40) for _ in range(G)]
                 stats[str(n)] = st
             scns.append({'tree': tj, 'reqs': reqs, 'G': G, 'nds': nds, 'stats': stats, 'rowseed': rng.randint(0, 10 ** 6),
-                         'chunked': rng.random() < 0.4, 'cli': False,       # the argschema runner cannot be constructed in this sandbox (marshmallow mismatch)
+                         'chunked': rng.random() < 0.4, 'cli': rng.random() < 0.1,      # through the command-line runner (harness/argshim.py)
                          'scheme': rng.choice(['structural', 'reversed', 'shared', 'prefix', 'slashed'])})
         _run_and_decide(ctx, scns)
 
